@@ -68,7 +68,15 @@ func (c18) Run(t *tape.Tape, st *Stats) *Violation {
 	if cut > stored.Len() {
 		cut = stored.Len()
 	}
-	csrc := simio.NewSource(stored, simio.Config{TruncAt: cut, ErrAt: -1})
+	// the cut file is served either all at once or under the same schedule, and
+	// its last bytes arrive alone or together with EOF
+	ccfg := simio.Config{TruncAt: cut, ErrAt: -1}
+	if t.Bool() {
+		ccfg = cfg
+		ccfg.TruncAt = cut
+	}
+	ccfg.EOFWithData = t.Bool()
+	csrc := simio.NewSource(stored, ccfg)
 	cres := SafeLoad(loader, csrc)
 	cv := View(cres)
 
@@ -85,7 +93,7 @@ func (c18) Run(t *tape.Tape, st *Stats) *Violation {
 	render := func() interface{} {
 		return map[string]interface{}{"input": tr.Desc, "file_len": stored.Len(), "needed_end": tr.NeededEnd, "loader": loader.Name,
 			"delivery": cfg.String(), "delivery_log": src.LogString(), "pulled_when_Load_returned": pulled, "allowed": int64(tr.NeededEnd) + 65536,
-			"result_whole": v, "cut_at": cut, "result_cut": cv}
+			"result_whole": v, "cut_at": cut, "cut_delivery": ccfg.String(), "result_cut": cv}
 	}
 	if st.WantSample() {
 		st.Sample(render())
